@@ -9,17 +9,20 @@ from harness.memrun import TICK
 ID = "C06"
 RUN_MODULE = "Model.Lock Run.C06"
 EXPLAIN = "explain"
-RULE = ("2-4 real asyncio tasks entering sections guarded by cache.lock / @cache.locked on a coroutine function / @cache.locked on an async generator / backend.lock on 1-2 keys, lock ttl 1-2 s, section "
+RULE = ("2-4 real asyncio tasks entering sections guarded by cache.lock / @cache.locked on a coroutine function / @cache.locked on an async generator / backend.lock on 1-2 keys (the second key lives on a second backend the facade routes to by prefix), lock ttl 1-2 s, section "
         "durations 0-3 x ttl (some overstay), wait=True (check_interval 0 or 0.125 s) and wait=False, plus unlock calls with a foreign token; "
         "every set_lock / unlock / ping of the Memory instance is gated, the schedule (which parked task runs next, when the clock advances to "
         "the next timer, which designated task gets cancelled) is a seeded list of choices - all schedules of length <= 7 for two tasks in the "
-        "thorough tier; purge task on (0.25 s) or off. Observed: every lock command with its result in execution order, and per task how it ended (entered, LockedError, cancelled) with its number of attempts. non-trivial: at least "
+        "thorough tier; purge task on (0.25 s) or off. Observed: every lock command with its result and the start and end of every guarded body, in execution order, and per task how it ended (entered, LockedError, cancelled) with its number of attempts. non-trivial: at least "
         "one acquisition failed or one holder overstayed its ttl")
 TRUSTED_BASE = ["Coq 8.16.1 kernel + vm_compute", "hand-written model coq/Model/Lock.v tied by replaying the observed command trace",
                 "asyncio task switching, cancellation delivery and the finally clause of the context manager are the interpreter's; the scheduler only chooses among parked tasks",
                 "tokens are uuid4 (distinct per acquisition: assumption)"]
 ASSUMPTIONS = ["commands of the in-memory backend are atomic (no await inside)", "positive ttl"]
 EXHAUSTIVE = {"quick": False, "thorough": True}
+
+
+KEYNAME = {"L": "L", "M": "p:M"}      # M is kept on a second backend, reached through the facade by its prefix
 
 
 def gen_cases(rng, tier):
@@ -54,31 +57,38 @@ def run_impl(case):
             from cashews.exceptions import LockedError
             cache = Cache()
             mem = cache.setup("mem://?size=100000&check_interval=" + ("0.25" if case["purge"] else "0") + case.get("conf", ""))
+            mem2 = cache.setup("mem://?size=100000&check_interval=0", prefix="p:")      # keys under 'p:' are routed to a second backend
             await cache.init()
             names = {f"T{i}": i for i in range(len(case["tasks"]))}
             names["F"] = 99
             tokens = {}   # token -> task index
-            raw = {n: getattr(mem, n) for n in ("set_lock", "unlock", "ping")}
+            raws = {}
 
-            async def set_lock(key, value, expire):
-                who = names.get(asyncio.current_task().get_name(), -1)
-                await drv.gate("set_lock")
-                r = await raw["set_lock"](key, value, expire)
-                tokens.setdefault(value, who)
-                events.append([key, "try", who, round(expire / TICK), bool(r), drv.tick()])
-                return r
+            def instrument(be):
+                raw = {n: getattr(be, n) for n in ("set_lock", "unlock", "ping")}
+                raws[be] = raw
 
-            async def unlock(key, value):
-                who = names.get(asyncio.current_task().get_name(), -1)
-                await drv.gate("unlock")
-                r = await raw["unlock"](key, value)
-                events.append([key, "foreign" if value not in tokens else "leave", tokens.get(value, who), 0, bool(r), drv.tick()])
-                return r
+                async def set_lock(key, value, expire):
+                    who = names.get(asyncio.current_task().get_name(), -1)
+                    await drv.gate("set_lock")
+                    r = await raw["set_lock"](key, value, expire)
+                    tokens.setdefault(value, who)
+                    events.append([key, "try", who, round(expire / TICK), bool(r), drv.tick()])
+                    return r
 
-            async def ping(message=None):
-                await drv.gate("ping")
-                return await raw["ping"](message)
-            mem.set_lock, mem.unlock, mem.ping = set_lock, unlock, ping
+                async def unlock(key, value):
+                    who = names.get(asyncio.current_task().get_name(), -1)
+                    await drv.gate("unlock")
+                    r = await raw["unlock"](key, value)
+                    events.append([key, "foreign" if value not in tokens else "leave", tokens.get(value, who), 0, bool(r), drv.tick()])
+                    return r
+
+                async def ping(message=None):
+                    await drv.gate("ping")
+                    return await raw["ping"](message)
+                be.set_lock, be.unlock, be.ping = set_lock, unlock, ping
+            instrument(mem)
+            instrument(mem2)
             outcomes = {}
 
             async def worker(i, spec):
@@ -86,22 +96,28 @@ def run_impl(case):
                     await asyncio.sleep(spec["start"] * TICK)
                 ttl = spec["ttl"] * TICK
 
+                key = KEYNAME[spec["key"]]
+
                 async def section():
-                    await asyncio.sleep(spec["dur"] * TICK)
+                    events.append([key, "in", i, 0, True, drv.tick()])        # the guarded body starts ...
+                    try:
+                        await asyncio.sleep(spec["dur"] * TICK)
+                    finally:
+                        events.append([key, "out", i, 0, True, drv.tick()])   # ... and is over (also when cancelled)
                     return "done"
                 try:
                     if spec["via"] == "locked":
-                        f = cache.locked(ttl=ttl, key=spec["key"], wait=spec["wait"], prefix="", check_interval=spec["ci"] * TICK)(lambda: section())
+                        f = cache.locked(ttl=ttl, key=key, wait=spec["wait"], prefix="", check_interval=spec["ci"] * TICK)(lambda: section())
                         await f()
                     elif spec["via"] == "locked_gen":
                         async def gen():
                             yield await section()
-                        f = cache.locked(ttl=ttl, key=spec["key"], wait=spec["wait"], prefix="", check_interval=spec["ci"] * TICK)(gen)
+                        f = cache.locked(ttl=ttl, key=key, wait=spec["wait"], prefix="", check_interval=spec["ci"] * TICK)(gen)
                         async for _ in f():
                             pass
                     else:
-                        target = cache if spec["via"] == "lock" else mem
-                        async with target.lock(spec["key"], ttl, wait=spec["wait"], check_interval=spec["ci"] * TICK):
+                        target = cache if spec["via"] == "lock" else (mem2 if key.startswith("p:") else mem)
+                        async with target.lock(key, ttl, wait=spec["wait"], check_interval=spec["ci"] * TICK):
                             await section()
                     outcomes[i] = "ok"
                 except LockedError:
@@ -112,8 +128,8 @@ def run_impl(case):
 
             async def intruder():
                 await asyncio.sleep(2 * TICK)
-                for k in ("L", "M"):
-                    await mem.unlock(k, "intruder-token")
+                for k in ("L", "p:M"):
+                    await (mem2 if k.startswith("p:") else mem).unlock(k, "intruder-token")
             ts = []
             for i, spec in enumerate(case["tasks"]):
                 t = asyncio.get_running_loop().create_task(worker(i, spec), name=f"T{i}")
@@ -122,7 +138,8 @@ def run_impl(case):
             if case["foreign"]:
                 ts.append(asyncio.get_running_loop().create_task(intruder(), name="F"))
             await asyncio.gather(*ts, return_exceptions=True)
-            mem.set_lock, mem.unlock, mem.ping = raw["set_lock"], raw["unlock"], raw["ping"]
+            for be, raw in raws.items():
+                be.set_lock, be.unlock, be.ping = raw["set_lock"], raw["unlock"], raw["ping"]
             await cache.close()
             return {"outcomes": {str(k): v for k, v in outcomes.items()}}
         return main()
@@ -133,17 +150,19 @@ def run_impl(case):
 
 def to_coq(case, obs):
     traces = []
-    for key in ("L", "M"):
-        evs = [e for e in obs["events"] if e[0] == key or (e[0].endswith(":" + key))]
+    for key in ("L", "p:M"):
+        evs = [e for e in obs["events"] if e[0] == key]
         tr, now = [], 0
         for key_, kind, who, ttl, r, t in evs:
             if t > now:
-                tr.append((C("Tick", Z(t - now)), True)); now = t
-            if kind == "try": tr.append((C("Try", Nat(who), Z(ttl)), r))
-            elif kind == "leave": tr.append((C("Leave", Nat(who)), r))
-            else: tr.append((C("ForeignUnlock", Nat(1000)), r))
+                tr.append((C("E", C("Tick", Z(t - now))), True)); now = t
+            if kind == "try": tr.append((C("E", C("Try", Nat(who), Z(ttl))), r))
+            elif kind == "leave": tr.append((C("E", C("Leave", Nat(who))), r))
+            elif kind == "in": tr.append((C("SecIn", Nat(who)), True))
+            elif kind == "out": tr.append((C("SecOut", Nat(who)), True))
+            else: tr.append((C("E", C("ForeignUnlock", Nat(1000))), r))
         if obs["deadlock"]:
-            tr.append((C("ForeignUnlock", Nat(1000)), True))   # never allowed: flags the run
+            tr.append((C("E", C("ForeignUnlock", Nat(1000))), True))   # never allowed: flags the run
         traces.append(tr)
     outcomes = (obs["result"] or {}).get("outcomes", {})
     code = {"ok": 0, "locked": 1, "cancelled": 2}
@@ -163,6 +182,7 @@ def classify(case, obs):
     d = {"tasks": len(case["tasks"]), "events": len(obs["events"]), "purge": int(case["purge"]), "deadlock": int(obs["deadlock"]),
          "scheduler_choices": obs["choices"]}
     for e in obs["events"]:
+        if e[1] in ("in", "out"): continue
         d[e[1] + ("_ok" if e[4] else "_fail")] = d.get(e[1] + ("_ok" if e[4] else "_fail"), 0) + 1
     for v in (obs["result"] or {}).get("outcomes", {}).values():
         d["outcome_" + v] = d.get("outcome_" + v, 0) + 1
